@@ -148,7 +148,7 @@ def draw_reject(h):
 def plan_st(draw, tier):
     cfg = draw(gen.config_st(arm_kinds=("int", "str", "float", "mix"), max_arms=4, with_binarizer=True, scale_ok=True,
                              defaults_ok=True))
-    h = gen.History(draw, cfg, max_rows=7)
+    h = gen.History(draw, cfg, max_rows=7, series_queries=True)
     n_rej = 0
     if draw(st.integers(0, 4)) == 0:       # rejected calls before the first fit
         draw_reject(h)
@@ -389,7 +389,7 @@ def evaluate(plan, ctx):
                                                               ops.short(o2)),
                                 bucket="state_changed:%s:%s" % (kind, npn if kind in ("pf_wrong_columns", "clusters_few_rows") else "*"))
         if ops.is_exc(out):
-            if op[0] in ("predict", "predict_expectations") and not fitted:
+            if op[0].startswith("predict") and not fitted:
                 continue
             raise Violation("unexpected_exception", "step %d %s raised %s" % (i, op[0], ops.short(out)),
                             bucket="unexpected_exception:%s:%s" % (op[0], out[1]))
@@ -397,7 +397,7 @@ def evaluate(plan, ctx):
             fitted = True
             if op[0] == "partial_fit" and rejected_after_fit:
                 pf_after = True
-        elif op[0] in ("predict", "predict_expectations") and pf_after:
+        elif op[0].startswith("predict") and pf_after:
             nontrivial = True
     return Result(nontrivial, sorted(ev))
 
